@@ -39,7 +39,8 @@ GEN: list = []
 RULE = (
     "a case = (store class, workloads of 2-4 writers [quick; up to 8 thorough] drawn from a small pool of shared "
     "contents incl. the empty file, duplicated contents inside one tree, nested paths, sometimes identical trees "
-    "(same directory object) and a pre-populated store, seeded schedule over the writers' file-system mutation "
+    "(same directory object), writers staging a directory WITHOUT files (empty / skeleton of empty sub-directories) "
+    "and a pre-populated store, seeded schedule over the writers' file-system mutation "
     "events). Distinct = distinct GRANT SEQUENCE actually followed (hash of the sequence of writer ids over all "
     "mutation events) x workloads x class. Non-trivial = at least two writers interleaved (>= 2 context switches) "
     "and at least one id requested by two writers. Plus free-running stress rounds (threads; separate processes) "
@@ -309,8 +310,22 @@ def md5hex(b: bytes) -> str:
     return hashlib.md5(b).hexdigest()  # noqa: S324
 
 
+def files_of(wl: dict) -> dict:
+    """the files of a workload; a key ending in "/" is an EMPTY sub-directory (it contributes nothing)"""
+    return {rel: b for rel, b in wl.items() if not rel.endswith("/")}
+
+
+def mk_ws(root: str, wl: dict):
+    impl.mk_tree(root, files_of(wl))
+    for rel in wl:
+        if rel.endswith("/"):
+            os.makedirs(os.path.join(root, *rel.strip("/").split("/")), exist_ok=True)
+
+
 def manifest(wl: dict) -> dict:
-    """independent expectation of one writer: {oid: bytes}, directory object last"""
+    """independent expectation of one writer: {oid: bytes}, directory object last.  A tree without files has
+    the empty listing: its only object is d751713988987e9331980363e24189ce.dir = b"[]"."""
+    wl = files_of(wl)
     out = {}
     for rel in sorted(wl):
         out[md5hex(wl[rel])] = wl[rel]
@@ -341,6 +356,18 @@ def gen_workloads(rng, n, big=False):
             else:
                 wl[nm] = b"uniq-%d-%d" % (w, rng.randrange(3))
         wkls.append(wl)
+    return wkls
+
+
+EMPTY_SHAPES = [{}, {"d/": b""}, {"d/": b"", "e/f/": b""}, {"x/y/z/": b""}]
+
+
+def with_empty_writers(rng, wkls):
+    """1-2 of the writers stage a directory WITHOUT files (empty, or a skeleton of nested empty sub-directories):
+    they all request the same single object, the empty listing"""
+    k = min(len(wkls), rng.choice([1, 1, 2]))
+    for i in rng.sample(range(len(wkls)), k):
+        wkls[i] = dict(rng.choice(EMPTY_SHAPES))
     return wkls
 
 
@@ -413,7 +440,7 @@ def pool_delays(root, wkls, pool):
     r = _random.Random(pool.get("seed", 0))
     for i, wl in enumerate(wkls):
         bydir: dict = {}
-        for rel in wl:
+        for rel in files_of(wl):
             bydir.setdefault(os.path.dirname(rel), []).append(rel)
         for rels in bydir.values():
             rels = sorted(rels)
@@ -493,7 +520,7 @@ def run_threads(ctx, cls, wkls, schedule, prepop=None, free=False, shared_state=
     store = os.path.join(root, "store")
     n = len(wkls)
     for i, wl in enumerate(wkls):
-        impl.mk_tree(os.path.join(root, f"w{i}"), wl)
+        mk_ws(os.path.join(root, f"w{i}"), wl)
     _RESTAGE.clear()
     if restage:
         # restage[i] = second version of writer i's tree (same names, same sizes).  Explicit clock: first
@@ -984,6 +1011,9 @@ def run(ctx):
         ("local", [{"a": b"shared"}, {"a": b"shared"}], [1] * 4 + [0] * 40 + [1] * 40),
         ("base", [{"a": b"shared", "b": b""}, {"b": b"", "c": b"shared"}, {"a": b"shared"}], [0, 1, 2] * 60),
         ("local", [{"a": b"", "d/b": b""}, {"x": b""}], [1, 0] * 50),
+        # writers staging a directory without files: the empty listing is the most shared object there is
+        ("local", [{}, {"a": b"shared"}, {"d/": b"", "e/f/": b""}], [0, 1, 2] * 60),
+        ("base", [{"d/": b""}, {}], [1, 0] * 40),
     ]
     for cls, wkls, schedule in corpus:
         out = scheduled_case(ctx, cls, wkls, schedule, "corpus")
@@ -1011,6 +1041,8 @@ def run(ctx):
         style, schedule = gen_schedule(rng, n, 60 * n + 100)
         prepop = None
         pool = None
+        if i % 8 == 5:
+            wkls = with_empty_writers(rng, wkls)
         verify = None
         if VERIFY_STREAM and i % 16 == 9:
             verify = [rng.choice(["call", "call", "store", None]) for _ in range(n)]
@@ -1021,7 +1053,10 @@ def run(ctx):
             pool = gen_pool(rng)
         elif rng.random() < 0.15:
             man = manifest(wkls[0])
-            k = rng.choice(list(man)[:-1])
+            if len(man) > 1:
+                k = rng.choice(list(man)[:-1])
+            else:
+                k = list(man)[0]  # a writer without files: its only object, the empty listing, is already there
             prepop = {k: man[k]}
         out = scheduled_case(ctx, cls, wkls, schedule, style, prepop, pool, verify)
         _register(ctx, out, cases, seen_sched, unknown_total)
@@ -1173,6 +1208,8 @@ def _register(ctx, out, cases, seen_sched, unknown_total):
         ctx.count("prepopulated")
     if "pool" in case:
         ctx.count("pool-hashing:scheduled")
+    if any(not files_of(wl) for wl in wkls):
+        ctx.count("empty-directory-writers:scheduled")
     # how often the interesting races were actually driven (replayed on the abstract steps)
     present, protected = set(), set()
     for tid, s in steps:
@@ -1235,6 +1272,9 @@ def stress(ctx):
             ctx.count("pool-hashing:free-threads")
         else:
             wkls = gen_workloads(rng, n, big=True)
+            if _r % 4 == 3:
+                wkls = with_empty_writers(rng, wkls)
+                ctx.count("empty-directory-writers:free-threads")
         verify = None
         if VERIFY_STREAM and _r % 4 == 1:
             verify = [rng.choice(["call", "store"]) for _ in range(n)]
@@ -1288,6 +1328,8 @@ def stress(ctx):
             ctx.count("pool-hashing:free-processes")
         else:
             wkls = gen_workloads(rng, n, big=True)
+            wkls = with_empty_writers(rng, wkls)
+            ctx.count("empty-directory-writers:free-processes")
         run_ = run_processes(ctx, cls, wkls, rounds=2, pool=pool)
         problems, *_ = judge(cls, wkls, run_)
         case = {"cls": cls, "workloads": hexwl(wkls), "mode": "free-processes"}
@@ -1306,7 +1348,7 @@ def run_processes(ctx, cls, wkls, rounds=1, pool=None):
     root = ctx.fresh("c16p")
     store = os.path.join(root, "store")
     for i, wl in enumerate(wkls):
-        impl.mk_tree(os.path.join(root, f"w{i}"), wl)
+        mk_ws(os.path.join(root, f"w{i}"), wl)
     env = dict(os.environ, PYTHONPATH=os.path.join(REPO, "src") + os.pathsep + os.path.dirname(os.path.dirname(os.path.abspath(__file__))),
                PYTHONHASHSEED="0", PYTHONDONTWRITEBYTECODE="1")
     go = os.path.join(root, "go")
